@@ -142,6 +142,8 @@ def render_stmt(prog, here_mod, k, st, in_class=False):
         v = prog["vars"][st[1]]
         if len(st) > 2 and st[2] == "modattr" and v["mod"] != here_mod:
             return [f"r{k} = {prog['mods'][v['mod']]}.{v['name']}"]     # read through the module: m0.VA
+        if len(st) > 2 and st[2] == "method":
+            return [f"r{k} = {v['name']}.__str__()"]                     # read only through a method of the value
         return [f"r{k} = {v['name']}"]
     if kind == "ext":
         return [f"r{k} = xu.e{st[1]}()"]
@@ -394,7 +396,8 @@ class Interp(object):
         for st in body:
             kind = st[0]
             if kind == "var":
-                locs.append(dec(self.prog["vars"][st[1]]["val"]))
+                val = dec(self.prog["vars"][st[1]]["val"])
+                locs.append(str(val) if len(st) > 2 and st[2] == "method" else val)
             elif kind == "ext":
                 e = self.prog.get("ext", {})
                 locs.append((f"e{st[1]}", e.get("ev", 1), e.get("ver", 0)))
